@@ -26,6 +26,8 @@ FP = [('Python/dawgie/db/shelve/comms.py',
        ['Worker.__init__', 'Worker.connectionLost', 'Worker.dataReceived', 'Worker.do',
         'Worker._do_acquire', 'Worker._do_release', 'Worker._get_db_lock_status',
         'Worker._lock_db', 'Worker._unlock_db', 'Worker._send']),
+      ('Python/dawgie/db/shelve/comms.py', ['acquire', 'release']),
+      ('Python/dawgie/pl/message.py', ['receive']),
       ('Python/dawgie/context.py', ['lock_db', 'unlock_db'])]
 EV = {'A': 'Acquire', 'P': 'Poll', 'R': 'Release', 'D': 'Drop', 'T': 'Timer'}
 
